@@ -83,7 +83,7 @@ Proof. induction l as [|a l IH]; intros H; [reflexivity|]. cbn [flat_map]. rewri
 Theorem spec_kmers_rc s :
   spec_kmers nt4 k (rc_bytes s) = rev (map swap (spec_kmers nt4 k s)).
 Proof.
-  unfold spec_kmers.
+  rewrite !spec_kmers_windows.
   assert (Hl : length (rc_bytes s) = length s) by (unfold rc_bytes; now rewrite rev_length, map_length).
   rewrite Hl. set (n := (length s + 1 - k)%nat).
   rewrite map_flat_map.
